@@ -140,6 +140,8 @@ def check(case):
         Xtrain = Xpred = X.astype(np.float32)
     if case.get("as_int16"):
         Xtrain = Xpred = X.astype(np.int16)  # the detector gets the narrow integers, the reference model the same numbers as floats
+    if K.rejects_other_width(lambda: K.build(K.detector_spec("SeededBinarySegmentation", params)), Xtrain, Xpred):
+        return {"nontrivial": False, "classes": ["other_number_of_columns_rejected"]}
     with sut("SeededBinarySegmentation.fit/predict"):
         spec_ = K.detector_spec("SeededBinarySegmentation", params)
         det = K.build_with_history(spec_, Xtrain, history)
